@@ -6,7 +6,7 @@ class C19(Prop):
     id = 'C19'
     required_theorems = ['C19_fast_is_spec', 'C19_pointwise', 'C19_involution', 'C19_in_place', 'C19_in_place_read']
     engine_desc = 'E1 apply_mask via Frame::format, FrameSocket::write (format_into_buf in the shared out_buffer) and the server read path vs Mask.mask_fast32 / xor_cyc'
-    rule = ('lengths 0..=67 x 8 start alignments (prefix 0,2..9 bytes in out_buffer / consumed bytes in in_buffer) x keys (v,v+1,v+2,v+3) for all 256 v plus one-hot keys x three routes; '
+    rule = ('lengths 0..=67 x 8 start alignments (prefix 0,2..9 bytes in out_buffer / consumed bytes in in_buffer) x keys (v,v+1,v+2,v+3) for all 256 v plus one-hot keys x three routes (the read route also with the frame cut at every position of its header and key); '
             'model evaluated with every p in 0..3; distinct by (route, key, payload); non-trivial when length > 0')
     level_text = ('mask_fast32 p key buf = xor_cyc key buf proved for EVERY p, key and buffer (bytes < 256), pointwise/involution/in-place corollaries; '
                   'correspondence exhaustive over the property\'s finite quantifier in the thorough tier')
@@ -22,7 +22,8 @@ class C19(Prop):
         for pos in range(4):
             for v in (1, 2, 4, 8, 16, 32, 64, 128, 255):
                 kk = [0, 0, 0, 0]; kk[pos] = v; keys.append(bytes(kk))
-        routes = ['fmt'] + ['wr%d' % a for a in (0, 2, 3, 4, 5, 6, 7, 8, 9)] + ['rd%d' % a for a in (0, 2, 3, 4, 5, 6, 7, 8, 9)]
+        routes = ['fmt'] + ['wr%d' % a for a in (0, 2, 3, 4, 5, 6, 7, 8, 9)] + ['rd%d' % a for a in (0, 2, 3, 4, 5, 6, 7, 8, 9)] + \
+                 ['rd%dc%d' % (a, c) for a in (0, 3) for c in (1, 2, 3, 4, 5, 6, 7, 9)]      # the frame arrives in two reads, cut inside its header / key / payload
         lens = list(range(0, 68)) + [68, 69, 70, 71, 72, 127, 128, 129, 130, 131, 255, 256, 257, 1023, 1024, 1025, 4095, 4096, 4097] + ([65535, 65536, 65537] if not quick else [65537])
         for n in lens:
             payload = bytes((i * 37 + n * 11 + 5) & 255 for i in range(n))
